@@ -30,6 +30,10 @@ type C16Case struct {
 	Seed    uint64     `json:"seed"`
 	Lanes   int        `json:"lanes,omitempty"` // goroutines of the concurrent phase (0: one per task); tasks are dealt round-robin
 	Focus   string     `json:"focus,omitempty"` // package family all the tasks come from, if any
+	// ConcFirst: the concurrent phase runs before the alone phase, so that state initialised lazily on first use
+	// (package-level tables, caches) is first touched by several goroutines at once; the first case of each
+	// worker process is then a cold start.
+	ConcFirst bool `json:"concFirst,omitempty"`
 }
 
 var c16Counts = map[string]int{"quick": 400, "thorough": 10_000}
@@ -82,6 +86,7 @@ func c16Gen(r *gen.Rng, tier string, idx int) interface{} {
 		}
 		c.Tasks = append(c.Tasks, t)
 	}
+	c.ConcFirst = r.Bool()
 	return c
 }
 
@@ -115,50 +120,65 @@ func c16Run(ci interface{}, rec *Rec) {
 	c := ci.(*C16Case)
 	old := runtime.GOMAXPROCS(c.Procs)
 	defer runtime.GOMAXPROCS(old)
-	// phase 1: every task alone
-	SetSchedule(0, 0, 0)
 	aloneBad := map[int]bool{}
-	for i, t := range c.Tasks {
-		r := runTask(t, rec.Tier)
-		for _, v := range r.Viols {
-			aloneBad[i] = true
-			rec.Viol("alone/"+t.Prop+"/"+v.Scenario, v.Kind, v.Site, "task #%d (%s idx %d) run alone: %s", i, t.Prop, t.Idx, v.Detail)
+	alone := func() {
+		// phase 1: every task alone
+		SetSchedule(0, 0, 0)
+		for i, t := range c.Tasks {
+			r := runTask(t, rec.Tier)
+			for _, v := range r.Viols {
+				aloneBad[i] = true
+				rec.Viol("alone/"+t.Prop+"/"+v.Scenario, v.Kind, v.Site, "task #%d (%s idx %d) run alone: %s", i, t.Prop, t.Idx, v.Detail)
+			}
+			rec.Count("task_runs_alone", 1)
 		}
-		rec.Count("task_runs_alone", 1)
 	}
-	// phase 2: all tasks at the same time, released together
-	SetSchedule(c.Seed, c.SendPct, c.StepPct)
-	defer SetSchedule(0, 0, 0)
-	atomic.StoreUint64(&c16.alternations, 0)
-	atomic.StoreUintptr(&c16.lastSolver, 0)
-	atomic.StoreInt32(&c16.maxRunning, 0)
-	start := make(chan struct{})
 	recs := make([]*Rec, len(c.Tasks))
-	lanes := c.Lanes
-	if lanes <= 0 || lanes > len(c.Tasks) {
-		lanes = len(c.Tasks)
-	}
-	var wg sync.WaitGroup
-	for lane := 0; lane < lanes; lane++ {
-		wg.Add(1)
-		go func(lane int) {
-			defer wg.Done()
-			<-start
-			n := atomic.AddInt32(&c16.running, 1)
-			for {
-				m := atomic.LoadInt32(&c16.maxRunning)
-				if n <= m || atomic.CompareAndSwapInt32(&c16.maxRunning, m, n) {
-					break
+	alt, maxRunning := 0, 0
+	together := func() {
+		// phase 2: all tasks at the same time, released together
+		SetSchedule(c.Seed, c.SendPct, c.StepPct)
+		atomic.StoreUint64(&c16.alternations, 0)
+		atomic.StoreUintptr(&c16.lastSolver, 0)
+		atomic.StoreInt32(&c16.maxRunning, 0)
+		start := make(chan struct{})
+		lanes := c.Lanes
+		if lanes <= 0 || lanes > len(c.Tasks) {
+			lanes = len(c.Tasks)
+		}
+		var wg sync.WaitGroup
+		for lane := 0; lane < lanes; lane++ {
+			wg.Add(1)
+			go func(lane int) {
+				defer wg.Done()
+				<-start
+				n := atomic.AddInt32(&c16.running, 1)
+				for {
+					m := atomic.LoadInt32(&c16.maxRunning)
+					if n <= m || atomic.CompareAndSwapInt32(&c16.maxRunning, m, n) {
+						break
+					}
 				}
-			}
-			for i := lane; i < len(c.Tasks); i += lanes {
-				recs[i] = runTask(c.Tasks[i], rec.Tier)
-			}
-			atomic.AddInt32(&c16.running, -1)
-		}(lane)
+				for i := lane; i < len(c.Tasks); i += lanes {
+					recs[i] = runTask(c.Tasks[i], rec.Tier)
+				}
+				atomic.AddInt32(&c16.running, -1)
+			}(lane)
+		}
+		close(start)
+		wg.Wait()
+		SetSchedule(0, 0, 0)
+		alt = int(atomic.LoadUint64(&c16.alternations))
+		maxRunning = int(atomic.LoadInt32(&c16.maxRunning))
 	}
-	close(start)
-	wg.Wait()
+	if c.ConcFirst {
+		rec.Count("batches_concurrent_phase_first", 1)
+		together()
+		alone()
+	} else {
+		alone()
+		together()
+	}
 	for i, r := range recs {
 		t := c.Tasks[i]
 		rec.Count("task_runs_concurrent", 1)
@@ -171,9 +191,8 @@ func c16Run(ci interface{}, rec *Rec) {
 			rec.Viol(fmt.Sprintf("concurrent/%s/%s", t.Prop, v.Scenario), kind, v.Site, "task #%d (%s idx %d) among %d concurrent tasks (it was clean when run alone = %v): %s", i, t.Prop, t.Idx, len(c.Tasks), !aloneBad[i], v.Detail)
 		}
 	}
-	alt := int(atomic.LoadUint64(&c16.alternations))
 	rec.Count("learn_step_alternations", alt)
-	rec.Max("max_tasks_running_at_once", int(atomic.LoadInt32(&c16.maxRunning)))
+	rec.Max("max_tasks_running_at_once", maxRunning)
 	rec.Count("schedule_perturbations", ScheduleHits())
 	rec.Count("batches", 1)
 	if c.Focus != "" {
@@ -184,7 +203,7 @@ func c16Run(ci interface{}, rec *Rec) {
 	if alt > 0 {
 		rec.Count("batches_with_interleaved_conflict_analysis", 1)
 		rec.Interesting(JS(c))
-		rec.Sample = map[string]interface{}{"batch": c, "alternations_between_solvers_at_conflict_analysis_steps": alt, "max_tasks_running_at_once": atomic.LoadInt32(&c16.maxRunning)}
+		rec.Sample = map[string]interface{}{"batch": c, "alternations_between_solvers_at_conflict_analysis_steps": alt, "max_tasks_running_at_once": maxRunning}
 	}
 }
 
